@@ -54,10 +54,19 @@ class SwitchExperimenter(experimenter.Experimenter):
       if trial_copy.final_measurement is None:
         continue
 
-      val = trial_copy.final_measurement.metrics[
-          self._exptr_objective_names[exptr_index]
-      ]
-      trial.complete(vz.Measurement(metrics={self._metric_name: val}))
+      metrics = trial_copy.final_measurement.metrics
+      objective_name = self._exptr_objective_names[exptr_index]
+      if trial_copy.infeasible and objective_name not in metrics:
+        # Infeasible trials may be completed without any metric.
+        measurement = vz.Measurement()
+      else:
+        measurement = vz.Measurement(
+            metrics={self._metric_name: metrics[objective_name]}
+        )
+      # An infeasible evaluation of the selected experimenter stays infeasible.
+      trial.complete(
+          measurement, infeasibility_reason=trial_copy.infeasibility_reason
+      )
 
   def problem_statement(self) -> vz.ProblemStatement:
     problem_statement = vz.ProblemStatement()
